@@ -63,7 +63,7 @@ func TestC14(t *testing.T) {
 	_, carveNames := carveFor("C14")
 	r.Meta(vc.Meta{
 		Level:       "exploration",
-		Rule:        "case = one encoded stream (3 signals, zstd on/off; shapes: small hostile batches, 3,000-5,000-item batches, growing retained dictionaries, long strings, schema evolution) decoded by consumers created with a ladder of 12 memory limits from 1 byte to 70 MiB placed around the stream's measured peak. Oracle per (stream, limit): no panic; the running sum of arrow_memory_inuse deltas published to the supplied MeterProvider stays within [0, limit] after every call; the first error on a stream whose control run succeeded satisfies errors.Is(err, ErrConsumerMemoryLimit); batches decoded successfully equal the encoded telemetry; metamorphic: the number of batches decoded before the first refusal is monotone in the limit. Non-trivial (stream, limit) = at least one batch decoded and one refused. Distinct = (shape, signal, zstd, #decoded, limit bucket).",
+		Rule:        "case = one encoded stream (3 signals, zstd on/off; shapes: small hostile batches, 3,000-5,000-item batches, growing retained dictionaries, long strings, schema evolution) decoded by consumers created with a ladder of 16 memory limits from 1 byte to 70 MiB placed around the stream's measured peak, plus 2^32, 2^63-1, 2^63 and 2^64-1. Oracle per (stream, limit): no panic; the running sum of arrow_memory_inuse deltas published to the supplied MeterProvider stays within [0, limit] after every call; the first error on a stream whose control run succeeded satisfies errors.Is(err, ErrConsumerMemoryLimit); batches decoded successfully equal the encoded telemetry; metamorphic: the number of batches decoded before the first refusal is monotone in the limit. Non-trivial (stream, limit) = at least one batch decoded and one refused. Distinct = (shape, signal, zstd, #decoded, limit bucket).",
 		Assumptions: []string{"in-use memory is observed through the metric the consumer itself publishes (arrow_memory_inuse), at call boundaries", "later errors on a consumer that already refused a batch are only required not to panic"},
 		Gates: map[string]map[string]int{
 			"quick":    {"pairs": 400, "first_refusals_recognised": 100, "pairs_some_decoded_some_refused": 20},
@@ -114,7 +114,10 @@ func TestC14(t *testing.T) {
 		if peak < 1024 {
 			peak = 1024
 		}
-		limits := []uint64{1, 100, 4096, peak / 16, peak / 6, peak / 3, peak / 2, peak * 3 / 4, peak - 1, peak + peak/3, peak * 4, 70 << 20}
+		limits := []uint64{1, 100, 4096, peak / 16, peak / 6, peak / 3, peak / 2, peak * 3 / 4, peak - 1, peak + peak/3, peak * 4, 70 << 20,
+			// "raising the limit never turns a decodable batch into a refused one": also far beyond any real
+			// memory, around the widths where limit arithmetic could wrap
+			1 << 32, 1<<63 - 1, 1 << 63, ^uint64(0)}
 		prevDecoded := -1
 		var prevLimit uint64
 		sort := func(a []uint64) {
